@@ -21,7 +21,7 @@ impl SkinFileIds {
     /// Read SFID chunk data from a chunk reader
     pub fn read<R: Read + Seek>(reader: &mut ChunkReader<R>) -> Result<Self> {
         let count = reader.chunk_size() / 4; // Each ID is 4 bytes
-        let mut ids = Vec::with_capacity(count as usize);
+        let mut ids = Vec::with_capacity(crate::common::bounded_capacity(count as usize));
 
         for _ in 0..count {
             ids.push(reader.read_u32_le()?);
@@ -63,7 +63,7 @@ impl AnimationFileIds {
     /// Read AFID chunk data from a chunk reader
     pub fn read<R: Read + Seek>(reader: &mut ChunkReader<R>) -> Result<Self> {
         let count = reader.chunk_size() / 4; // Each ID is 4 bytes
-        let mut ids = Vec::with_capacity(count as usize);
+        let mut ids = Vec::with_capacity(crate::common::bounded_capacity(count as usize));
 
         for _ in 0..count {
             ids.push(reader.read_u32_le()?);
@@ -238,7 +238,7 @@ impl TextureFileIds {
     /// Read TXID chunk data from a chunk reader
     pub fn read<R: Read + Seek>(reader: &mut ChunkReader<R>) -> Result<Self> {
         let count = reader.chunk_size() / 4; // Each ID is 4 bytes
-        let mut ids = Vec::with_capacity(count as usize);
+        let mut ids = Vec::with_capacity(crate::common::bounded_capacity(count as usize));
 
         for _ in 0..count {
             ids.push(reader.read_u32_le()?);
@@ -302,7 +302,7 @@ impl BoneFileIds {
     /// Read BFID chunk data from a chunk reader
     pub fn read<R: Read + Seek>(reader: &mut ChunkReader<R>) -> Result<Self> {
         let count = reader.chunk_size() / 4; // Each ID is 4 bytes
-        let mut ids = Vec::with_capacity(count as usize);
+        let mut ids = Vec::with_capacity(crate::common::bounded_capacity(count as usize));
 
         for _ in 0..count {
             ids.push(reader.read_u32_le()?);
@@ -351,7 +351,7 @@ impl LodData {
         }
 
         let count = reader.chunk_size() / LOD_LEVEL_SIZE;
-        let mut levels = Vec::with_capacity(count as usize);
+        let mut levels = Vec::with_capacity(crate::common::bounded_capacity(count as usize));
 
         for _ in 0..count {
             let distance = reader.read_f32_le()?;
